@@ -555,6 +555,12 @@ def check_int_casts(ctx, rep, files=("encoding/json/decode.rs", "encoding/json/e
                         guarded = True
                     if g.op == "Eq" and g.b is not None and g.b.kind == "const" and g.a.same(src) and 0 <= g.b.v <= lim:
                         guarded = True
+                    # `(lo..=hi).contains(&x)` taken, with constant bounds inside the target range
+                    if g.op == "True" and g.b is None and g.a is not None and g.a.kind == "call" and str(g.a.v).split("::")[-1] == "contains" and "Range" in str(g.a.v) and len(g.a.args) == 2 and g.a.args[1].same(src):
+                        r = g.a.args[0]
+                        bounds = [x.v for x in r.args[:2]] if r.kind in ("call", "agg") and len(r.args) >= 2 and all(x.kind == "const" for x in r.args[:2]) else None
+                        if bounds and 0 <= bounds[0] and bounds[1] - (0 if "Inclusive" in str(r.v) else 1) <= lim:
+                            guarded = True
                 if guarded:
                     rep.ok("R-CAST", key, b.where(bi, st.get("line")), "%s -> %s under a dominating range guard" % (f, t))
                 else:
